@@ -45,7 +45,7 @@ REPLACE_FAMILY = ["replace", "replace_with", "insert", "delete", "replace_range"
 def quiet(fn, *a, default=None, **kw):  # noqa: ANN001, ANN002, ANN003, ANN201
     """Run a steering call; any failure (including a hang) just means 'no candidate'."""
     try:
-        with time_limit(2.0):
+        with time_limit(1.0):
             return fn(*a, **kw)
     except (Exception, Hang):  # noqa: BLE001
         return default
@@ -294,7 +294,7 @@ def run_history(lib: Any, doc_node: Any, ops: list[dict]) -> tuple[Any, list]:
     status = []
     for op in ops:
         try:
-            with time_limit(5.0):
+            with time_limit(2.0):
                 apply_op(tr, lib, op)
             status.append("ok")
         except Hang:
